@@ -179,6 +179,20 @@ theorem gen_getters_pinned :
 /-- `ElasticConstants.transform(axes, tol=1e-08)`: the solver calls it WITHOUT its own `tol` (see `gen_pins_pinned`). -/
 theorem gen_sigTransform_pinned : Gen.Stroh.sigTransform = [("axes", ""), ("tol", "1e-08")] := rfl
 
+/-- statement pin of `IsotropicVolterraDislocation.theta` (statement audit): `arctan(y / x)`, the two special cases on
+    `x = 0`, `+π` for `x < 0`, then `-2π` where the value is `≥ π` — the hand model is `thetaOf` (`thetaOf_halfplanes`); an
+    edit of a comparison or of the order of the four in-place updates changes this text. -/
+theorem gen_theta_pinned : Gen.Stroh.thetaBody =
+  ["pos = np.asarray(pos, dtype=float)",
+   "x = pos.dot(self.m)",
+   "y = pos.dot(self.n)",
+   "with warnings.catch_warnings():\n    warnings.simplefilter('ignore')\n    theta = np.arctan(y / x)",
+   "theta[(x == 0) & (y > 0)] = np.pi / 2",
+   "theta[(x == 0) & (y < 0)] = -np.pi / 2",
+   "theta[x < 0] += np.pi",
+   "theta[theta >= np.pi] -= 2 * np.pi",
+   "return theta"] := rfl
+
 /-- statements outside the Lean definitions, in source order. -/
 theorem gen_pins_pinned : Gen.Stroh.pins =
   ["Cmax = np.abs(self.C.Cijkl).max()",
